@@ -18,7 +18,8 @@ accounting invariant `run_account` of `Proofs/MsgLayer/Deliver.lean`:
 Vocabulary (all in `Proofs/MsgLayer/Deliver.lean`):
 * `deliverCount R M os` — how many `Out.deliver _ R w` with `w.mid = M` are in `os`;
 * `expiryCount R M es`  — how many events `Ev.fireExpire R M` are in `es`;
-* `keyed R M s`         — `recent` has an entry with key `(R, M)`.
+* `keyed R M s`         — `recent` has an entry with key `(R, M)`;
+* `KInv s` (`Proofs/MsgLayer/Keys.lean`) — the keys of `recent` are pairwise distinct.
 -/
 namespace Aiocoap.MsgLayer
 
